@@ -461,3 +461,42 @@ SPECS["C19"] = {
          "limits": {"quick": {"timeout": "600s"}, "thorough": {"timeout": "600s"}}},
     ],
 }
+
+
+SPECS["C17"] = {
+    "explanation": "RELAY EVENTS: statsdaemon.constructEventMessage(e) is fed to the real lexer: for every event with title/text over the property's alphabet plus space (text optionally "
+                   "containing a real newline, never a literal backslash-n pair), symbolic date, optional source / aggregation key / source type, priority, alert type and 0..2 tags, the "
+                   "parse succeeds and returns the same fields (source as h:). RELAY LINES: the lines processMetrics emits for a counter, gauge, timer or set with a symbolic name, tag "
+                   "and set member parse back to the same name, tags (source as an extra s: tag), counter total, values and member; statsd.-prefixed counters are skipped. PACKING: for "
+                   "0..4 lines of different lengths and a symbolic packet size, no emitted datagram exceeds the packet size unless it holds a single line, every datagram ends with a "
+                   "complete line and every line is emitted exactly once. BATCHES: influxdb (1..metrics-per-batch series per callback, counts add up, one line per series, ceil(k/batch) "
+                   "callbacks), datadog (every sub-metric of every series exactly once, host and tags carried), newrelic (every series once), otlp groups (no batch above the batch size, "
+                   "every metric in exactly one batch). INFLUX ESCAPING: for every ASCII string of 1..3 bytes the escaped tag / measurement name / string field contains no bare separator "
+                   "and unescapes (reference un-escaper in the harness) to the input.",
+    "bounds": {"quick": "event title/text <= 2 bytes; names 2 bytes, tags 1 byte; packet size 8..40; 0..5 series and batch sizes 1..4 (influx), 1..60 (datadog, newrelic), 1..3 (otlp); escaping strings <= 2 bytes",
+               "thorough": "escaping strings of 3 bytes, event title/text of 2 bytes with newline"},
+    "outside": ["number formatting (fmt %f, strconv.FormatFloat): the 6-decimal relay round trip of arbitrary values is checked for the concrete values 1.5, 0.25, 3, 42 only",
+                "JSON / protobuf / gzip encodings of the built payloads", "Graphite's regexp-based name normalisation", "CloudWatch's 20-per-call loop is covered as index arithmetic in C04",
+                "known finding (D10): an event TITLE containing a newline (possible only for events ingested over HTTP) does not survive the relay; checked by VerifC17_EventViaParser through the real DatagramParser and listed in known_findings.txt"],
+    "assumptions": STUBS_COMMON + [MATH_NOTE, PF_STUB],
+    "jobs": [
+        {"pkg": "./pkg/backends/statsdaemon", "harness": "pkg/backends/statsdaemon", "mode": "math",
+         "entries": {"quick": ["VerifC17_Event_1_1", "VerifC17_Event_0_0", "VerifC17_Event_1_2NL", "VerifC17_Lines", "VerifC17_Packing", "VerifC17_Twin"],
+                     "thorough": ["VerifC17_Event_1_1", "VerifC17_Event_0_0", "VerifC17_Event_1_2NL", "VerifC17_Event_2_2", "VerifC17_Lines", "VerifC17_Packing", "VerifC17_Twin"]},
+         "reach": {"VerifC17_Event_1_1": ["event-roundtrip"], "VerifC17_Lines": ["lines-roundtrip"], "VerifC17_Packing": ["packed"]},
+         "twin": {"VerifC17_Twin": True},
+         "limits": {"quick": {"timeout": "900s"}, "thorough": {"timeout": "3000s"}}},
+        {"pkg": "./pkg/statsd", "harness": "pkg/statsd", "mode": "machine", "workers": 8,
+         "entries": {"quick": ["VerifC17_EventViaParser"]}, "reach": {"*": ["via-parser"]}, "limits": {"quick": {"timeout": "600s"}}},
+        {"pkg": "./pkg/backends/influxdb", "harness": "pkg/backends/influxdb", "mode": "machine",
+         "entries": {"quick": ["VerifC17_Escape1", "VerifC17_Escape2", "VerifC17_InfluxBatches"], "thorough": ["VerifC17_Escape1", "VerifC17_Escape2", "VerifC17_Escape3", "VerifC17_InfluxBatches"]},
+         "reach": {"VerifC17_Escape2": ["escaped"], "VerifC17_InfluxBatches": ["batched"]},
+         "limits": {"quick": {"timeout": "600s"}, "thorough": {"timeout": "1800s"}}},
+        {"pkg": "./pkg/backends/datadog", "harness": "pkg/backends/datadog", "mode": "machine", "workers": 8,
+         "entries": {"quick": ["VerifC17_DatadogBatches"]}, "reach": {"*": ["batched"]}, "limits": {"quick": {"timeout": "600s"}}},
+        {"pkg": "./pkg/backends/newrelic", "harness": "pkg/backends/newrelic", "mode": "machine", "workers": 8,
+         "entries": {"quick": ["VerifC17_NewRelicBatches"]}, "reach": {"*": ["batched"]}, "limits": {"quick": {"timeout": "600s"}}},
+        {"pkg": "./pkg/backends/otlp", "harness": "pkg/backends/otlp", "mode": "machine", "workers": 8,
+         "entries": {"quick": ["VerifC17_OTLPGroups"]}, "reach": {"*": ["grouped"]}, "limits": {"quick": {"timeout": "600s"}}},
+    ],
+}
